@@ -115,6 +115,57 @@ def function_terms(fn):
     return roots
 
 
+def param_only_difference(want, got, pnames):
+    """the pairs (p, q) of distinct parameter names at which two terms differ, if they differ nowhere else; else None"""
+    out = []
+
+    def rec(a, b):
+        if a == b:
+            return True
+        if isinstance(a, tuple) and isinstance(b, tuple):
+            if a[0] == "ref" and b[0] == "ref" and a[1] in pnames and b[1] in pnames:
+                out.append((a[1], b[1]))
+                return True
+            if a[0] == "lit" and b[0] == "ref" and b[1] in pnames:
+                out.append((str(a[1]), b[1]))
+                return True
+            if len(a) == len(b) and a[0] == b[0]:
+                return all(rec(x, y) if isinstance(x, tuple) or isinstance(y, tuple) else x == y for x, y in zip(a[1:], b[1:]))
+        return False
+    return out if rec(want, got) and out else None
+
+
+def same_but_fills(ta, tb, pnames, f):
+    """the same resizing / assigning call on the two storages with the same length argument, the fills being parameters, packs of parameters or literals"""
+    if not (ta[0] == "call" and tb[0] == "call" and ta[1][0] == "mem" and tb[1][0] == "mem" and ta[1][2] == tb[1][2] and len(ta) >= 3 and len(tb) >= 3):
+        return False
+    if not (is_member(ta[1][1], f["a"]) and is_member(tb[1][1], f["b"]) and ta[2] == tb[2]):
+        return False
+
+    def fill_ok(x):
+        x = strip_casts(x)
+        return x[0] == "lit" or (x[0] == "ref" and x[1] in pnames) or (x[0] == "pack" and all(fill_ok(y) for y in x[1:]))
+    return all(fill_ok(x) for x in ta[3:]) and all(fill_ok(x) for x in tb[3:])
+
+
+def is_nonpublic(d, cls, fn):
+    from .. import fstring as fs
+    acc = fs.member_access(cls)
+    par = d.parent_of(fn)
+    ids = {fn.get("id")} | ({par.get("id")} if par is not None else set())
+    prev = fn.get("previousDecl")
+    vals = [acc.get(i) for i in ids if i in acc]
+    if not vals:
+        # an out-of-line definition: find the in-class declaration of the same name and parameter count
+        for m in ir.kids(cls):
+            decl = m
+            if m.get("kind") == "FunctionTemplateDecl":
+                decl = next((c for c in ir.kids(m) if c.get("kind") in ir.FUNC_KINDS), None)
+            if decl is not None and decl.get("kind") in ir.FUNC_KINDS and decl.get("name") == fn.get("name") and len(ir.params(decl)) == len(ir.params(fn)):
+                vals.append(acc.get(m.get("id"), acc.get(decl.get("id"))))
+    return bool(vals) and all(v in ("private", "protected") for v in vals if v)
+
+
 def rule_pairing(rep, d):
     rep.rule("C11.pair", "in every member of the container families each use of the first storage is mirrored in order by the same "
                          "operation on the second storage with the same size/index argument and the prescribed fill (optional: none->false, "
@@ -164,6 +215,10 @@ def rule_pairing(rep, d):
                     if fam == "optional" and ia[0] == "call" and len(ia) == 4 and ia[3][0] == "ref" and ia[3][1] in plain_params:
                         alts = [base[:3] + (("lit", "true"),)]
                     ok = ib in alts
+                    if not ok and is_nonpublic(d, cls, fn) and param_only_difference(alts[0], ib, [p.get("name") for p in ir.params(fn)]):
+                        rep.inconclusive("C11.pair", label, "constructor initialises both storages", where=where,
+                                         detail="a non-public worker constructor that receives the two fills as separate parameters: their agreement is a matter of the delegating constructors")
+                        continue
                     (rep.holds if ok else rep.violates)("C11.pair", label, "constructor initialises both storages", where=where,
                                                         detail="%s(%s) / %s(%s)%s" % (f["a"], ir.show(ia), f["b"], ir.show(ib),
                                                                                       "" if ok else " - expected %s(%s)" % (f["b"], ir.show(alts[0]))))
@@ -176,10 +231,23 @@ def rule_pairing(rep, d):
                                                                                    len(B), f["b"], "; ".join(ir.show(x) for x in B)[:120]))
                 continue
             bad = []
+            deferred = []
+            pnames_all = [p.get("name") for p in ir.params(fn)]
             for ta, tb in zip(A, B):
                 alts = expected_b(ta, fam, plain_params)
                 if tb not in alts:
+                    # a private worker that receives the two fills as separate parameters (`resize_storages(s, re, im)`): what it is given is decided
+                    # by its callers, which this rule does not follow
+                    dl = param_only_difference(alts[0], tb, pnames_all)
+                    if not dl and same_but_fills(ta, tb, pnames_all, f):
+                        dl = [("the parameters", "the parameters")]
+                    if dl and is_nonpublic(d, cls, fn):
+                        deferred.append("`%s` / `%s`: the fills are the separate parameters %s" % (ir.show(ta), ir.show(tb), ", ".join("%s and %s" % x for x in dl)))
+                        continue
                     bad.append("`%s` is paired with `%s`, expected `%s`" % (ir.show(ta), ir.show(tb), ir.show(alts[0])))
+            if deferred and not bad:
+                rep.inconclusive("C11.pair", label, "storages used in lockstep", where=where, detail="; ".join(deferred) + " - their agreement is a matter of the call sites")
+                continue
             # order inside a constructed result: first storage first
             for kind, field, t in roots:
                 for s in ir.subterms(t):
@@ -321,7 +389,11 @@ def rule_alias(rep, d):
             if not touched:
                 continue
             n += 1
-            if bad:
+            if bad and is_nonpublic(d, cls, fn) and all(re.fullmatch(r"(const\s+)?[A-Z]\w*\s*&(\.\.\.)?", ir.wtype(p_).strip()) for p_ in refs):
+                # a non-public worker whose parameters have bare template-parameter types: which storage each of them may alias is known to its callers only
+                rep.inconclusive(R, label, "reference parameter consumed before reallocation", where=d.where(bad[0]),
+                                 detail="%s - but which storage a parameter of this worker may alias is decided at its call sites" % bad[1][:120])
+            elif bad:
                 rep.violates(R, label, "reference parameter consumed before reallocation", where=d.where(bad[0]), detail=bad[1])
             else:
                 rep.holds(R, label, "reference parameter consumed before reallocation", where=d.where(fn), detail="%d paths" % len(paths))
